@@ -131,15 +131,15 @@ Definition check_m (k : mcase) : bool :=
   && contact_obs_eqb c2 (k_o_contact2 k) && events_eqb evs2 (k_o_events2 k) && Bool.eqb m2 (k_o_modified2 k)
   && mod_env_ok E (k_mod k) (k_contact k).
 
-(* ---- a sprint: the contact-writing steps the engine performed, in order ---------------------------- *)
+(* ---- a sprint: the kind of engine call and the modifiers of the executed actions, in order ------------ *)
 Record scase := {
-  s_tables : etables; s_contact : contact; s_steps : list step;
+  s_tables : etables; s_contact : contact; s_kind : sprint_kind; s_acts : list (N * modifier);
   s_o_contact : contact; s_o_events : list event
 }.
 
 Definition check_s (k : scase) : bool :=
   let E := mk_env (s_tables k) in
-  let '(c1, evs1) := run_steps E (s_steps k) (s_contact k) in
+  let '(c1, evs1) := run_sprint E (s_kind k) (s_acts k) (s_contact k) in
   contact_obs_eqb c1 (s_o_contact k) && events_eqb evs1 (s_o_events k).
 
 Fixpoint mismatches_from {A : Type} (chk : A -> bool) (i : N) (ks : list A) : list N :=
